@@ -15,7 +15,7 @@
 #include <lib/random/random.h>
 #include <gvt/fossil.h>
 
-static FILE *f_ops, *f_c;
+static FILE *f_ops, *f_c, *f_g; /* f_g (rank mode): node-level GVT actions of this rank */
 static int mode_par, mode_dist, mode_rank; /* rank: full trace vocabulary, one file pair per MPI rank */
 static const char *ops_path, *c_path;
 static char rank_model_line[512];
@@ -86,6 +86,10 @@ static void dist_open(void)
 	setvbuf(f_c, NULL, _IOLBF, 0);
 	vrng_state ^= 0x9e3779b97f4a7c15ULL * (uint64_t)(nid + 1); /* a different schedule on every rank */
 	if(mode_rank) {
+		snprintf(b, sizeof b, "%s.g.%d", ops_path, (int)nid);
+		f_g = xfopen(b, "w");
+		setvbuf(f_g, NULL, _IOLBF, 0);
+		fprintf(f_g, "hdr %d %u %d\n", (int)n_nodes, global_config.n_threads, (int)nid);
 		fprintf(f_ops, "%s %d %d\n", rank_model_line, (int)n_nodes, (int)nid);
 		fprintf(f_c, "model ok\n");
 		n_lines++;
@@ -403,8 +407,16 @@ void verif_trace(unsigned kind, uint64_t a, uint64_t b, uint64_t c)
 			    (!(b & 3) && !mode_rank && r < VS_MAXT && tq_of(((const struct lp_msg *)p)->dest_t) < th_gvt[r]) ? " c03=ok" : "");
 			break;
 		}
+		case VK_NODE_PHASE:
+			if(f_g) {
+				static const char *nm[] = {"?", "flip", "report", "coll", "poll", "done"};
+				fprintf(f_g, "%s %u %llu %llu\n", nm[a < 6 ? a : 0], r, (unsigned long long)b, (unsigned long long)c);
+			}
+			break;
 		case VK_RECV_REMOTE: {
 			uint64_t o = ord_of(m);
+			if(f_g)
+				fprintf(f_g, "recv %u %u:%u:E:%d\n", r, m->raw_flags & ~3u, m->m_seq, (int)nid);
 			fprintf(f_ops, "rrecv %u %llu %llu %llu %u %u %u %u ", r, (unsigned long long)o, (unsigned long long)m->dest,
 			    (unsigned long long)tq_of(m->dest_t), m->m_type, m->pl_size, m->raw_flags, m->m_seq);
 			fput_hex(f_ops, m->pl, m->pl_size);
@@ -414,17 +426,23 @@ void verif_trace(unsigned kind, uint64_t a, uint64_t b, uint64_t c)
 			break;
 		}
 		case VK_RECV_REMOTE_ANTI:
+			if(f_g)
+				fprintf(f_g, "recv %u %u:%u:A:%d\n", r, m->raw_flags & ~3u, m->m_seq, (int)nid);
 			OP("rrecva %u %llu %llu %llu %u %u", r, (unsigned long long)ord_of(m), (unsigned long long)m->dest,
 			    (unsigned long long)tq_of(m->dest_t), m->raw_flags, m->m_seq);
 			RE("rrecva %llu", (unsigned long long)ord_of(m));
 			break;
 		case VK_SEND_REMOTE:
+			if(f_g)
+				fprintf(f_g, "send %u %d %u %u:%u:E:%d\n", r, (int)lid_to_nid(m->dest), m->m_seq & 1u, m->raw_flags & ~3u, m->m_seq, (int)lid_to_nid(m->dest));
 			OP("rsend %u %llu %llu", r, (unsigned long long)ord_of(m), (unsigned long long)b);
 			RE("rsend %llu from=%llu dest=%llu tq=%llu type=%u size=%u pl=%llx", (unsigned long long)ord_of(m),
 			    (unsigned long long)b, (unsigned long long)m->dest, (unsigned long long)tq_of(m->dest_t), m->m_type,
 			    m->pl_size, (unsigned long long)gm_payload_digest(m->pl, m->pl_size));
 			break;
 		case VK_ANTI_REMOTE:
+			if(f_g)
+				fprintf(f_g, "send %u %d %u %u:%u:A:%d\n", r, (int)lid_to_nid(m->dest), (m->raw_flags >> 1) & 1u, m->raw_flags & ~3u, m->m_seq, (int)lid_to_nid(m->dest));
 			n_ev[39]++;
 			n_antis++;
 			OP("antir %u %llu", r, (unsigned long long)ord_of(m));
